@@ -70,6 +70,11 @@ void DynamicConstructorDataGlobal::reloadPoints(std::function<int(int)> getNumPo
             if (i != -1) t.loaded[i] = true;
         }
     }
+
+    for(auto &t : tensors){ // complete tensors are marked with an empty loaded vector, same as in addNewNode() and addTensor()
+        if (std::all_of(t.loaded.begin(), t.loaded.end(), [](bool b)->bool{ return b; }))
+            t.loaded.clear();
+    }
 }
 
 void DynamicConstructorDataGlobal::clearTesnors(){
